@@ -183,7 +183,8 @@ def library(runname, n, with_api=True):
     import numpy as np
     import esr.generation.generator as g
     import esr.fitting.fit_single as fs
-    basis = shipped_bases()[runname]
+    extra = json.loads(os.environ.get("C08_EXTRA_BASES", "{}"))     # user-style bases added by the harness
+    basis = extra[runname] if runname in extra else shipped_bases()[runname]
     calls, orig = install_recorder()
     shapes = []
     real_stf = g.shape_to_functions
